@@ -92,6 +92,7 @@ func registerStubs(m map[string]Intrinsic) {
 			return e.deadlock(st, "RWMutex.Lock while the lock is held by the same goroutine")
 		}
 		st.extra["rw:w:"+k] = e.i64(1)
+		e.recLock(st, EvLockW, "rw:"+k)
 		return val(nil)
 	}
 	m["(*sync.RWMutex).Unlock"] = func(e *Exec, st *State, ci *CallInfo) Outcome {
@@ -101,6 +102,7 @@ func registerStubs(m map[string]Intrinsic) {
 			return handled
 		}
 		st.extra["rw:w:"+k] = e.i64(0)
+		e.recLock(st, EvUnlockW, "rw:"+k)
 		return val(nil)
 	}
 	m["(*sync.RWMutex).RLock"] = func(e *Exec, st *State, ci *CallInfo) Outcome {
@@ -109,6 +111,7 @@ func registerStubs(m map[string]Intrinsic) {
 			return e.deadlock(st, "RWMutex.RLock while write-locked by the same goroutine")
 		}
 		st.extra["rw:r:"+k] = e.i64(e.extraInt(st, "rw:r:"+k) + 1)
+		e.recLock(st, EvLockR, "rw:"+k)
 		return val(nil)
 	}
 	m["(*sync.RWMutex).RUnlock"] = func(e *Exec, st *State, ci *CallInfo) Outcome {
@@ -118,6 +121,7 @@ func registerStubs(m map[string]Intrinsic) {
 			return handled
 		}
 		st.extra["rw:r:"+k] = e.i64(e.extraInt(st, "rw:r:"+k) - 1)
+		e.recLock(st, EvUnlockR, "rw:"+k)
 		return val(nil)
 	}
 	m["(*sync.Mutex).Lock"] = func(e *Exec, st *State, ci *CallInfo) Outcome {
@@ -126,11 +130,13 @@ func registerStubs(m map[string]Intrinsic) {
 			return e.deadlock(st, "Mutex.Lock while held by the same goroutine")
 		}
 		st.extra["mu:"+k] = e.i64(1)
+		e.recLock(st, EvLockW, "mu:"+k)
 		return val(nil)
 	}
 	m["(*sync.Mutex).Unlock"] = func(e *Exec, st *State, ci *CallInfo) Outcome {
 		k := ci.Args[0].(*Ptr).key()
 		st.extra["mu:"+k] = e.i64(0)
+		e.recLock(st, EvUnlockW, "mu:"+k)
 		return val(nil)
 	}
 	m["(*sync.Pool).Get"] = func(e *Exec, st *State, ci *CallInfo) Outcome {
